@@ -49,6 +49,7 @@ func c02Ed25519Subjects(r *verifmc.Run) []*kit.Subject {
 		return &kit.Subject{Name: name, SeedSize: ed25519.SeedSize, PKSize: ed25519.PublicKeySize, SigSize: ed25519.SignatureSize,
 			Deterministic: true, Contexts: ctxs, BadContexts: bad, Derive: derive, EncodePK: enc, DecodePK: dec,
 			Scalars:  []kit.Scalar{{Off: 32, Len: 32, Order: c02L25519}},
+			PKCoords: c02EdCoords(0, false), SigCoords: c02EdCoords(0, false),
 			WrapSign: map[string]func(seed, msg []byte, ctx string) []byte{"Ed25519ph": c02WrapSigner(eddsa.Ed25519ph), "Ed25519ctx": c02WrapSigner(eddsa.Ed25519ctx)}[name],
 			Sign: func(sk interface{}, msg []byte, ctx string) ([]byte, error) {
 				a := sg(sk.(ed25519.PrivateKey), msg, ctx)
@@ -95,6 +96,7 @@ func c02Ed448Subjects(r *verifmc.Run) []*kit.Subject {
 		return &kit.Subject{Name: name, SeedSize: ed448.SeedSize, PKSize: ed448.PublicKeySize, SigSize: ed448.SignatureSize,
 			Deterministic: true, Contexts: []string{"", "a", c02Ctx255}, BadContexts: []string{c02Ctx256}, Derive: derive, EncodePK: enc, DecodePK: dec,
 			Scalars:  []kit.Scalar{{Off: 57, Len: 57, Order: c02L448}},
+			PKCoords: c02EdCoords(0, true), SigCoords: c02EdCoords(0, true),
 			WrapSign: map[string]func(seed, msg []byte, ctx string) []byte{"Ed448-pure": c02WrapSigner(eddsa.Ed448), "Ed448ph": c02WrapSigner(eddsa.Ed448ph)}[name],
 			Sign: func(sk interface{}, msg []byte, ctx string) ([]byte, error) {
 				a := sg(sk.(ed448.PrivateKey), msg, ctx)
